@@ -1,13 +1,13 @@
 """C10  Captured reaction state can be re-instated without changing behaviour.
 
 Shape H: breadth-first exploration of reaction histories; at EVERY reached state the real library is asked to capture the
-state and to re-instate it along six routes, and the statement's relations are evaluated on what comes back.
+state and to re-instate it along five routes, and the statement's relations are evaluated on what comes back.
 
 States (two families, both run on the real library through the white-box vdrv driver):
   H  the histories of the C02 explorer (imported, not copied): 43 reaction-step ops (REACTION x step forms, MIX, 18
      attach/replace ops over the six reactant kinds incl. 8 surface variants, temperature) x 2 execution modes
      (USE..SAVE / RUN_CELLS) x 2 initial cells (solutions only / one reactant of every kind), phreeqc.dat.
-  S  mc/oracles/c10_states.py: 55 one-kind cells that reach the RAW fields C02's alphabet does not (isotopes, pitzer / sit
+  S  mc/oracles/c10_states.py: 51 one-kind cells that reach the RAW fields C02's alphabet does not (isotopes, pitzer / sit
      gammas, every surface model and option incl. CD-MUSIC, phase- and kinetics-related exchangers / surfaces,
      Peng-Robinson and -equilibrate gases, alternative formulas, solid-solution parameter forms, kinetics options, and
      MIX / REACTION / REACTION_TEMPERATURE / REACTION_PRESSURE kept under number 1; phreeqc.dat, iso.dat, pitzer.dat,
@@ -23,15 +23,28 @@ At every state A (slot s0; d1 = its `DUMP -all` text):
   storagebin / serializer   phreeqc2cxxStorageBin -> cxxStorageBin2phreeqc, Serializer::Serialize -> Deserialize on A's
             engine object (white-box driver ops).
   For every follow-up in {RUN_CELLS step, REACTION HCl, MIX with solution 2, REACTION_TEMPERATURE 40, (cells with
-  kinetics:) a longer incremental time step}: the selected-output table (USER_PUNCH of 40-60 full-precision read-outs per
-  reaction step: pH, pe, mu, T, water, alkalinity, volume, element totals, SI and amounts of phases, gas moles / pressure /
-  molar volume, exchange and surface species, EDL potential / charge / water / ions, kinetic and solid-solution amounts)
-  of the follow-up on the re-instated state equals the table of the same follow-up on the original A: same rows, same
-  text cells, numbers within relative 1e-7.  "On the original" = in a forked copy of the driver process, so that every
-  follow-up and every route starts from the very same A.
+  kinetics:) a longer incremental time step}: the selected-output table (USER_PUNCH of 50-70 full-precision read-outs per
+  reaction step: pH, pe, mu, T, water, volume, conductance, element totals, redox inventory, SI and amounts of phases, gas
+  moles / pressure / molar volume, exchange and surface species, EDL potential / charge / water / ions, kinetic and
+  solid-solution amounts) of the follow-up on the re-instated state equals the table of the same follow-up on the
+  original A: same rows, same text cells, numbers within relative 1e-7.  "On the original" = in a forked copy of the
+  driver process, so that every follow-up and every route starts from the very same A.
 
-R1: dump text after the in-memory routes is compared with d1 for the evidence only (the statement speaks of follow-up
-results there).  R2: histories / follow-ups that do not complete on the original are counted, not judged.
+How "relative 1e-7" is read (R1: not stricter than the text, never wider):
+  * a number passes if |a-b| <= 1e-7 max(|a|,|b|); log10-type read-outs (pH, pe, SI) also pass if the quantity they are
+    the logarithm of agrees to 1e-7 (|dL| <= log10(1+1e-7)) - otherwise SI = 0 +- 2e-15 of an equilibrated phase could
+    never be "equal";
+  * CHARGE_BALANCE and ALK are shown, never judged (cancelling sums without a relative scale);
+  * a follow-up that does not complete on the original is not judged (R2); one that does not complete on the
+    SOLUTION_MODIFY copy only is counted, not judged (the copy starts the solver from other initial guesses; whether
+    the solver copes is C03's / C08's subject).
+Calibration (R5) - what alarms on the unchanged tree, each under ONE narrow fingerprint (see the evidence and the
+known findings): two read errors (SOLUTION -isotope data; -equilibrate gas phase: `-p_read nan`), exchangers / surfaces tied
+to a kinetic reactant that the reader rescales, the redox state (pe without redox poise, minor redox amounts) that 14
+significant digits cannot carry, and two solver-tolerance effects visible on the modify route only (sit.dat: stale
+water activity; fixed-volume gas: pressure converged to 1e-3 atm).  Dump text after the in-memory routes is compared
+with d1 for the evidence only (the statement speaks of follow-up results there): Serializer drops entity descriptions
+and -viscos_0 on every state, no follow-up depends on them.
 """
 import os
 import re
@@ -767,14 +780,22 @@ def run(tier):
     ev = core.Evidence(PROP, tier)
     findings = core.Findings(PROP)
     ev.assumptions = [
-        "the databases phreeqc.dat, iso.dat, pitzer.dat, sit.dat and the additions EPRI/cdmusic_hiemstra.dat load without error",
+        "the databases phreeqc.dat, iso.dat, pitzer.dat, sit.dat load without error; the CD-MUSIC additions are the goethite reactions of database/EPRI/cdmusic_hiemstra.dat",
         "'the same database additions' = the RATES / PHASES / master-species definitions of the state's input and the SELECTED_OUTPUT / USER_PUNCH read-out definition, run in the new instance before the dump is read",
         "INCREMENTAL_REACTIONS is a global switch of the run, not reaction state: every follow-up input states it",
         "route modify: the solution that receives SOLUTION_MODIFY (-totals, -total_h, -total_o, -cb of the dump) is pure water defined with the dump's -temp, -pressure and -mass_water "
-        "(dump convention: SOLUTION_RAW -totals are moles per valence state; -total_h / -total_o hold all H and O; -cb is the charge in eq)",
-        "CHARGE_BALANCE is punched and shown in samples but not judged (solver rounding residue, no relative scale); every other read-out is judged at relative 1e-7 of the larger of the two values",
+        "(dump conventions taken from the implementation: SOLUTION_RAW -totals are moles per valence state; -total_h / -total_o hold all H and O; -cb is the charge in eq)",
+        "CHARGE_BALANCE and ALK are punched and shown in samples but not judged; log10-type read-outs (pH, pe, SI) pass if either the logarithm or the quantity itself agrees to relative 1e-7; "
+        "every other read-out is judged at relative 1e-7 of the larger of the two values",
+        "constant from the implementation: DUMP writes DBL_DIG-1 = 14 significant digits; total H (111 mol/kg water) and total O are thereby carried to 5e-12 / 5e-13 mol, the electron balance to "
+        "E_RESOLUTION = 6e-12 eq; differences of pe in rows whose redox buffer capacity (textbook beta = ln10 n^2 ox red/(ox+red), O2: 16 ln10 n, H2: 4 ln10 n, from punched redox inventories) is below "
+        "1.5e-4 eq/pe, and of redox-species amounts by <= 1.2e-11 mol, are classed under the single fingerprint '" + REDOX_FP + "' (text routes only; in-memory copies are judged without exception)",
+        "dump convention from the implementation: GAS_PHASE_RAW -type 1 = fixed volume (used only to class a modify-route difference <= 1e-5 under the fixed-volume-gas fingerprint, cf. C15's finding F16)",
+        "a follow-up that fails on the SOLUTION_MODIFY copy but completes on the original is counted, not judged (different initial guesses; solver robustness is C03/C08)",
         "dump text after the storage-bin / serializer routes is compared with the original dump for the evidence only (statement: follow-up results)",
-        "white-box routes use Phreeqc::phreeqc2cxxStorageBin / cxxStorageBin2phreeqc and Serializer::Serialize(engine, 0, 1000, true, true) / Deserialize on the same engine object",
+        "white-box routes use Phreeqc::phreeqc2cxxStorageBin / cxxStorageBin2phreeqc and Serializer::Serialize(engine, 0, 1000, true, true) / Deserialize on the same engine object: "
+        "an entity kind that a copy routine skipped entirely would go unnoticed (the engine keeps its own object)",
+        "the 3rd and 4th number of SOLID_SOLUTIONS_RAW -p lines are masked in state keys and evidence (cxxSS::dump_raw prints p[2], p[3] of a 2-element vector for the 2-parameter input forms: heap garbage)",
     ]
     pool = core.Pool()
     stats = new_stats()
@@ -801,6 +822,8 @@ def run(tier):
     for name, init, mode, ops, depth in plan:
         bfs_h(name, init, mode, ops, depth, ev, findings, pool, dl, stats)
     pool.close()
+    ev.diag("seen while calibrating, outside this statement (memory safety, C08): cxxSS::dump_raw (SS.cxx) prints p[0..3] although -miscibility_gap / -critical_point / -thompson / "
+            "-margules etc. leave the vector with 2 elements: out-of-bounds read, the dump shows heap garbage (e.g. `-p 0.0048 0.8579 6.99e-308 2.42e-322`)")
     total = stats["completed"] + stats["not_completed"]
     ev.extra["alphabet"] = {"H_ops (mc/props/c02.py)": allops, "H_light": "all but su:dl-new su:dl-equil ss:nonideal", "H_sub_alphabet": subx, "H_core12": list(CORE12), "H_inits": ["plain", "full"],
                             "H_modes": ["use (USE..SAVE)", "cells (RUN_CELLS)"], "S_kind_cells": S.ORDER, "S_ops": list(S_OPS),
